@@ -89,6 +89,11 @@ def run(tier, seed, replay=None):
     st = [r for r in run_tasks("cutstock", "run_cg_steps", sc, timeout=120) if isinstance(r, dict) and "steps" in r]
     if len(st) < len(sc) // 2:
         raise tlc.MachineryError("column-generation step traces could not be recorded (%d of %d)" % (len(st), len(sc)))
+    # custom-pricing mode: the same step spec with the explicit column set in the place of the roll
+    cc = [c for c in cases if c.get("kind") == "custom" and all(sum(col) > 0 for col in c["pool"]) and len(c["pool"]) <= 14][: 150 if tier == "quick" else 1500]
+    stc = [r for r in run_tasks("cutstock", "run_cg_steps_custom", cc, timeout=120) if isinstance(r, dict) and "steps" in r]
+    ck.extra["column_generation_step_level_custom_calls"] = len(stc)
+    st = st + stc
     sv = ck.validate(DIR, "CgSteps", st, "master LP / pricing calls of solve_cg", timeout=14400)
     for v in sv:
         for d in v.get("div", []):
